@@ -54,10 +54,10 @@ type c07Event struct {
 		TPS    string `json:"tps"`
 		Cancel bool   `json:"cancel"`
 	} `json:"during"`
-	Sends  []string `json:"sends"`
-	Ret    string   `json:"ret"`
-	Moves  *string  `json:"moves"`
-	Pos    []string `json:"pos"`
+	Sends []string `json:"sends"`
+	Ret   string   `json:"ret"`
+	Moves *string  `json:"moves"`
+	Pos   []string `json:"pos"`
 }
 
 type c07Trace struct {
@@ -519,6 +519,15 @@ func c07Directed() []*c07Sched {
 					ops = append(ops, "G A:1 A:0 L:2 A:0 T A:2 L:1 G A:0")
 					add("resume", size, col, true, false, ops...)
 				}
+			}
+			// SLOW resume replay: the replayed lines are spread over more than 500 ms in total while every gap stays far below
+			// the grace period, so the grace timer must be measured from the LAST line of the burst: no thinker may be started
+			// for an intermediate position
+			// (the first thinker is released at once, so that a thinker started too early is not queued behind it; three
+			// replayed lines 180 ms apart, then 235 ms of silence: 595 ms after the first line, 235 ms after the last; an
+			// answer released THEN must find no live thinker)
+			for _, tail := range []string{"A:1 R:5 R:2 G A:0 A:0 L:2 A:0 T A:2", "A:1 G A:0 L:2 A:0 T", "R:5 W:120 A:1 R:2 G A:0"} {
+				add("slow-replay", size, col, true, false, "A:0 R:1 W:180 R:3 W:180 R:0 W:235 "+tail)
 			}
 			// undo at every ply, with the thinker released before the request, between request and undo, or after
 			for p := 1; p <= 5; p++ {
